@@ -108,6 +108,12 @@ class ShardAcc:
                 if len(self.samples) < 2 or (len(self.samples) < 4 and self.cases % 97 == 0):
                     self.samples.append(out.sample if out.sample is not None else case)
         for f in out.findings:
+            if f.sig.endswith('/timeout') and self.pid != 'C14':
+                # hitting the per-run time limit decides nothing about this property (termination is C14's, which
+                # confirms a hang before reporting it): counted, never reported
+                self.classes['inconclusive:run-hit-the-time-limit'] += 1
+                self.excluded['run hit the time limit (inconclusive)'] += 1
+                continue
             self.finding_counts[f.sig] += 1
             lst = self.findings.setdefault(f.sig, [])
             size = len(canon(case))
